@@ -37,6 +37,9 @@ CheckCase ==
                \* the same blob is what both file formats store: the map on the first of three sibling instances, the
                \* stored bytes recovered by reading the files without the database
                /\ ("chunked" \in DOMAIN Ev) => Clause("sink-independent", Ev.chunked = Ev.blob)
+               \* what is decoded does not depend on how the source cuts the bytes into read() results
+               /\ ("back_pieces" \in DOMAIN Ev) => Clause("source-independent", Ev.back_pieces.read = Ev.back.read
+                                                            /\ (Ev.back.read = "ok" => Ev.back_pieces.map = Ev.back.map))
                /\ ("files" \in DOMAIN Ev /\ "expected" \in DOMAIN Ev.files) =>
                      /\ Clause("files-own-blob", Ev.files.expected[1] = Ev.blob)
                      /\ Clause("files-binary", Ev.files.bin = Ev.files.expected)
